@@ -385,3 +385,342 @@ Proof.
     apply (find_table_in t s' td' F2). }
   rewrite Hao. rewrite Cs. reflexivity.
 Qed.
+
+(* ---------- AddColumn of a plain column ---------- *)
+Lemma find_tb_replace : forall t cat tb tb',
+  find_tb t cat = Some tb -> tb_name tb' = t -> find_tb t (replace_tb tb' t cat) = Some tb'.
+Proof.
+  intros t cat tb tb'. unfold find_tb, replace_tb. induction cat as [|x r IH]; intros H Hn; cbn [find map] in *; [discriminate|].
+  destruct (String.eqb (tb_name x) t) eqn:E.
+  - cbn [find]. rewrite Hn, String.eqb_refl. reflexivity.
+  - cbn [find]. rewrite E. apply IH; assumption.
+Qed.
+
+Lemma replace_replace : forall t a b cat,
+  tb_name b = t -> replace_tb a t (replace_tb b t cat) = replace_tb a t cat.
+Proof.
+  intros t a b cat Hb. unfold replace_tb. rewrite map_map. apply map_ext. intro x.
+  destruct (String.eqb (tb_name x) t) eqn:E; [rewrite Hb, String.eqb_refl; reflexivity|rewrite E; reflexivity].
+Qed.
+
+Lemma mcols_replace_notin : forall (m : mcol) c l,
+  existsb (fun x => String.eqb (mc_name x) c) l = false ->
+  map (fun x => if String.eqb (mc_name x) c then m else x) l = l.
+Proof.
+  intros m c l. induction l as [|x r IH]; intro H; [reflexivity|].
+  cbn [existsb] in H. apply Bool.orb_false_iff in H. destruct H as [H1 H2].
+  cbn [map]. rewrite H1. f_equal. apply IH. exact H2.
+Qed.
+
+Lemma auto_ok_snoc : forall n cs m pk idx fks chk,
+  mc_auto m = false ->
+  auto_ok (mkMTable n (cs ++ [m]) pk idx fks chk) = auto_ok (mkMTable n cs pk idx fks chk).
+Proof.
+  intros n cs m pk idx fks chk Hm. unfold auto_ok. cbn [tb_cols]. rewrite filter_app. cbn [filter]. rewrite Hm, app_nil_r.
+  reflexivity.
+Qed.
+
+Lemma normalize_shape : forall td n, normalize td = Ok n ->
+  n = mkTable (t_name td) (t_description td) (t_columns td) (t_constraints n).
+Proof.
+  intros td n H. unfold normalize in H. destruct (normalize_constraints _ _) as [cs|e]; [|discriminate].
+  inversion H; subst. reflexivity.
+Qed.
+
+Theorem sim_add_column : forall s a, add_column_sim_hyp s a = true -> action_sim s a.
+Proof.
+  intros s a H s' Ha P. unfold add_column_sim_hyp in H.
+  destruct a as [tb cols0 ks0|tb|t col fw|tb f2 t2|tb cn|tb cn ty fw|tb cn nl fw|tb cn nd|tb cn nc|tb k|tb k|f2 t2|sql]; try discriminate.
+  destruct (find_table t s) as [td|] eqn:Ft; [|discriminate].
+  apply Bool.andb_true_iff in H; destruct H as [H Hnauto].
+  apply Bool.andb_true_iff in H; destruct H as [H Hnpk].
+  apply Bool.andb_true_iff in H; destruct H as [H Hnorm].
+  apply Bool.andb_true_iff in H; destruct H as [H Hnew].
+  apply Bool.andb_true_iff in H; destruct H as [H Hplain].
+  apply Bool.andb_true_iff in H; destruct H as [Hwf Hwfa].
+  unfold wf_names in Hwf. apply Bool.andb_true_iff in Hwf. destruct Hwf as [Hndt Hndc].
+  apply Bool.negb_true_iff in Hnew. apply Bool.negb_true_iff in Hnpk. apply Bool.negb_true_iff in Hnauto.
+  destruct (find_table_in t s td Ft) as [Hin Htn].
+  destruct (normalize (mkTable (t_name td) (t_description td) (t_columns td ++ [col]) (t_constraints td))) as [n|e] eqn:N; [|discriminate].
+  unfold dec_b in Hnorm. destruct (list_eq_dec constraint_eq_dec (t_constraints n) (t_constraints td)) as [Eks|]; [|discriminate].
+  pose proof (normalize_shape _ _ N) as Hn. cbn [t_name t_description t_columns] in Hn. rewrite Eks in Hn.
+  set (c := c_name col) in *.
+  (* the schema after *)
+  destruct (frame s t (fun t0 => if has_column c t0 then Err (ColumnExists t c)
+                                 else match normalize (mkTable (t_name t0) (t_description t0) (t_columns t0 ++ [col]) (t_constraints t0)) with
+                                      | Err _ => Err TableValidation
+                                      | Ok n0 => Ok n0
+                                      end) td n Hndt Ft) as [s2 [Us Cs]].
+  { rewrite Hnew, N. reflexivity. }
+  { rewrite Hn. reflexivity. }
+  cbn [apply_action] in Ha. fold c in Ha. rewrite Us in Ha. inversion Ha; subst s2. clear Ha.
+  (* the believed table after *)
+  set (m := mcol_of_def (sea_coldef col)).
+  assert (Hmk : mk_mcol (t_constraints td) col = m).
+  { unfold mk_mcol, m, mcol_of_def, sea_coldef. cbn [cd_name cd_type cd_notnull cd_default cd_auto]. fold c.
+    unfold pk_cols_of_table, constraints_of in Hnpk. rewrite Ft in Hnpk. rewrite Hnpk, Hnauto.
+    rewrite Bool.orb_false_r. reflexivity. }
+  assert (Htd' : catalog_of_table n =
+                 mkMTable (t_name td) (tb_cols (catalog_of_table td) ++ [m]) (tb_pk (catalog_of_table td))
+                          (tb_indexes (catalog_of_table td)) (tb_fks (catalog_of_table td)) (tb_checks (catalog_of_table td))).
+  { rewrite Hn. destruct td as [n0 ds cols ks]. cbn [t_name t_description t_columns t_constraints] in *.
+    rewrite (catalog_of_table_same_constraints n0 ds cols (cols ++ [col]) ks). rewrite catalog_of_table_cols. cbn [t_columns t_constraints].
+    rewrite map_app. cbn [map]. rewrite Hmk. reflexivity. }
+  assert (Ftb : find_tb t (catalog_of s) = Some (catalog_of_table td)) by (rewrite find_tb_catalog_of, Ft; reflexivity).
+  assert (Hno : has_mcol c (catalog_of_table td) = false) by (rewrite has_mcol_catalog; exact Hnew).
+  assert (Hao : auto_ok (catalog_of_table td) = true).
+  { unfold wf_auto in Hwfa. rewrite forallb_forall in Hwfa. apply Hwfa. exact Hin. }
+  assert (Hname : tb_name (catalog_of_table td) = t) by (rewrite tb_name_catalog_of_table; exact Htn).
+  cbn [gen]. unfold gen_add_column.
+  destruct (negb (c_nullable col) && is_none (c_default col) && is_some fw)%bool eqn:Back.
+  - (* nullable first, backfill, MODIFY to NOT NULL *)
+    eexists. split; [reflexivity|].
+    set (m0 := mcol_of_def (sea_coldef (set_nullable true col))).
+    set (tb1 := mkMTable (tb_name (catalog_of_table td)) (tb_cols (catalog_of_table td) ++ [m0]) (tb_pk (catalog_of_table td))
+                         (tb_indexes (catalog_of_table td)) (tb_fks (catalog_of_table td)) (tb_checks (catalog_of_table td))).
+    assert (E1 : exec (catalog_of s) (SAddColumn t (sea_coldef (set_nullable true col))) = Ok (replace_tb tb1 t (catalog_of s))).
+    { cbn [exec]. unfold with_tb. rewrite Ftb. cbn [sea_coldef cd_name set_nullable c_name]. fold c. rewrite Hno.
+      fold m0. fold tb1. unfold tb1. rewrite auto_ok_snoc by reflexivity.
+      destruct (catalog_of_table td) as [a1 a2 a3 a4 a5 a6] eqn:Etb. cbn [tb_name tb_cols tb_pk tb_indexes tb_fks tb_checks] in *.
+      rewrite Hao. reflexivity. }
+    assert (F1 : find_tb t (replace_tb tb1 t (catalog_of s)) = Some tb1).
+    { eapply find_tb_replace; [exact Ftb|]. unfold tb1. cbn [tb_name]. exact Hname. }
+    assert (Hc1 : has_mcol c tb1 = true).
+    { unfold has_mcol, tb1. cbn [tb_cols]. rewrite existsb_app. cbn [existsb]. unfold m0, mcol_of_def, sea_coldef. cbn [cd_name mc_name set_nullable c_name].
+      fold c. rewrite String.eqb_refl. rewrite Bool.orb_true_r. reflexivity. }
+    assert (Hm0 : mc_name m0 = c) by reflexivity.
+    set (upd := match normalize_fill_with fw with
+                | Some f => [SUpdate t c (convert_default_mysql f) None]
+                | None => []
+                end).
+    assert (E2 : run (replace_tb tb1 t (catalog_of s)) upd = RunOk (replace_tb tb1 t (catalog_of s))).
+    { eapply run_updates; [exact F1|exact Hc1|]. unfold upd. destruct (normalize_fill_with fw); [|reflexivity].
+      cbn [forallb is_update_on]. rewrite !String.eqb_refl. reflexivity. }
+    assert (E3 : exec (replace_tb tb1 t (catalog_of s)) (SModifyColumn t (sea_coldef col)) = Ok (catalog_of s')).
+    { cbn [exec]. unfold with_tb. rewrite F1. cbn [sea_coldef cd_name]. fold c. rewrite Hc1. cbn [negb].
+      assert (Hpk1 : tb_pk tb1 = tb_pk (catalog_of_table td)) by reflexivity. rewrite Hpk1.
+      assert (Hpkf : match tb_pk (catalog_of_table td) with Some p => mem_str c p | None => false end = false).
+      { unfold pk_cols_of_table, constraints_of in Hnpk. rewrite Ft in Hnpk. change (tb_pk (catalog_of_table td)) with (first_pk (t_constraints td)).
+        destruct (first_pk (t_constraints td)); [exact Hnpk|reflexivity]. }
+      rewrite Hpkf, Bool.andb_false_r.
+      match goal with |- (if auto_ok ?T then _ else _) = _ => assert (Ht2 : T = catalog_of_table n) end.
+      { unfold tb1. cbn [tb_name tb_cols tb_pk tb_indexes tb_fks tb_checks]. rewrite map_app. cbn [map]. rewrite Hm0, String.eqb_refl.
+        rewrite (mcols_replace_notin _ c (tb_cols (catalog_of_table td))) by exact Hno.
+        rewrite Htd'. rewrite Hname, Htn. reflexivity. }
+      rewrite !Ht2.
+      assert (Hao' : auto_ok (catalog_of_table n) = true).
+      { rewrite Htd'. rewrite auto_ok_snoc by reflexivity.
+        destruct (catalog_of_table td) as [a1 a2 a3 a4 a5 a6] eqn:Etb. cbn [tb_name tb_cols tb_pk tb_indexes tb_fks tb_checks] in *.
+        exact Hao. }
+      rewrite Hao'. rewrite replace_replace by (unfold tb1; cbn [tb_name]; exact Hname). rewrite Cs. reflexivity. }
+    change ([SAddColumn t (sea_coldef (set_nullable true col))] ++ upd ++ [SModifyColumn t (sea_coldef col)])
+      with ([SAddColumn t (sea_coldef (set_nullable true col))] ++ (upd ++ [SModifyColumn t (sea_coldef col)])).
+    eapply run_app_ok.
+    + unfold run. cbn [run_from]. rewrite E1. reflexivity.
+    + eapply run_app_ok; [exact E2|]. unfold run. cbn [run_from]. rewrite E3. reflexivity.
+  - eexists. split; [reflexivity|].
+    assert (E : exec (catalog_of s) (SAddColumn t (sea_coldef col)) = Ok (catalog_of s')).
+    { cbn [exec]. unfold with_tb. rewrite Ftb. cbn [sea_coldef cd_name]. fold c. rewrite Hno.
+      fold (sea_coldef col). fold m.
+      assert (Hao' : auto_ok (catalog_of_table n) = true).
+      { rewrite Htd'. rewrite auto_ok_snoc by reflexivity.
+        destruct (catalog_of_table td) as [a1 a2 a3 a4 a5 a6] eqn:Etb. cbn [tb_name tb_cols tb_pk tb_indexes tb_fks tb_checks] in *.
+        exact Hao. }
+      match goal with |- (if auto_ok ?T then _ else _) = _ => assert (Ht1 : T = catalog_of_table n) end.
+      { rewrite Htd'. rewrite Hname, Htn. reflexivity. }
+      rewrite !Ht1, Hao', Cs. reflexivity. }
+    unfold run. cbn [run_from]. rewrite E. reflexivity.
+Qed.
+
+(* ---------- DeleteColumn of a column that no constraint mentions ---------- *)
+Lemma drop_in_notin : forall c l, mem_str c l = false -> drop_in c l = l.
+Proof.
+  intros c l. unfold drop_in, mem_str. induction l as [|x r IH]; intro H; [reflexivity|].
+  cbn [existsb] in H. apply Bool.orb_false_iff in H. destruct H as [H1 H2].
+  cbn [filter]. rewrite String.eqb_sym in H1. rewrite H1. cbn [negb]. f_equal. apply IH. exact H2.
+Qed.
+
+Lemma drop_constraint_noop : forall c k,
+  constraint_mentions c k = false -> constraint_nonempty k = true -> drop_column_from_constraint c k = Some k.
+Proof.
+  intros c k Hm Hn. destruct k; cbn [constraint_mentions constraint_nonempty constraint_columns drop_column_from_constraint] in *.
+  - rewrite (drop_in_notin _ _ Hm), Hn. reflexivity.
+  - rewrite (drop_in_notin _ _ Hm), Hn. reflexivity.
+  - apply Bool.orb_false_iff in Hm. destruct Hm as [H1 H2].
+    rewrite (drop_in_notin _ _ H1), (drop_in_notin _ _ H2), Hn. reflexivity.
+  - reflexivity.
+  - rewrite (drop_in_notin _ _ Hm), Hn. reflexivity.
+Qed.
+
+Lemma drop_constraints_noop : forall c ks,
+  forallb (fun k => negb (constraint_mentions c k)) ks = true -> forallb constraint_nonempty ks = true ->
+  drop_column_from_constraints c ks = ks.
+Proof.
+  intros c ks. unfold drop_column_from_constraints. induction ks as [|k r IH]; intros H1 H2; [reflexivity|].
+  cbn [forallb] in *. apply Bool.andb_true_iff in H1. destruct H1 as [Hk H1]. apply Bool.andb_true_iff in H2. destruct H2 as [Hn H2].
+  apply Bool.negb_true_iff in Hk. cbn [flat_map]. rewrite (drop_constraint_noop c k Hk Hn). cbn [app]. f_equal. apply IH; assumption.
+Qed.
+
+Lemma filter_mcols : forall ks c cols,
+  filter (fun x => negb (String.eqb (mc_name x) c)) (map (mk_mcol ks) cols)
+  = map (mk_mcol ks) (filter (fun x => negb (String.eqb (c_name x) c)) cols).
+Proof.
+  intros ks c cols. induction cols as [|x r IH]; [reflexivity|].
+  cbn [map filter]. rewrite mc_name_mk. destruct (negb (String.eqb (c_name x) c)); cbn [map]; rewrite IH; reflexivity.
+Qed.
+
+Lemma first_pk_in : forall ks p, first_pk ks = Some p -> exists a, In (CPrimaryKey a p) ks.
+Proof.
+  intros ks p. unfold first_pk. induction ks as [|k r IH]; cbn [filter]; intro H; [discriminate|].
+  destruct k; cbn [is_pk] in H; try (destruct (IH H) as [a Ha]; exists a; right; exact Ha).
+  inversion H; subst. eexists. left. reflexivity.
+Qed.
+
+(* every key of the believed table comes from a constraint of the table *)
+Lemma index_cols_from_constraints : forall td i,
+  In i (tb_indexes (catalog_of_table td)) ->
+  exists k, In k (t_constraints td) /\
+            match k with
+            | CUnique _ cols | CIndex _ cols | CForeignKey _ cols _ _ _ _ => ix_cols i = cols
+            | _ => False
+            end.
+Proof.
+  intros td i H. cbn [catalog_of_table tb_indexes] in H. apply in_app_or in H. destruct H as [H|H].
+  - unfold explicit_indexes in H. apply in_app_or in H. destruct H as [H|H].
+    + unfold unique_indexes in H. apply in_flat_map in H. destruct H as [k [Hk Hi]].
+      destruct k; cbn in Hi; try contradiction. destruct Hi as [Hi|[]]. subst i. eexists. split; [exact Hk|reflexivity].
+    + unfold plain_indexes in H. apply in_flat_map in H. destruct H as [k [Hk Hi]].
+      destruct k; cbn in Hi; try contradiction. destruct Hi as [Hi|[]]. subst i. eexists. split; [exact Hk|reflexivity].
+  - assert (G : forall keys fks, In i (generated_indexes keys fks) -> exists f, In f fks /\ ix_cols i = fk_cols f).
+    { clear. intros keys fks. revert keys. induction fks as [|f r IH]; intros keys H; cbn [generated_indexes] in H; [contradiction|].
+      destruct (nonempty (fk_cols f) && existsb (is_prefix (fk_cols f)) keys)%bool.
+      - destruct (IH _ H) as [f' [Hf Hc]]. exists f'. split; [right; exact Hf|exact Hc].
+      - destruct H as [H|H].
+        + subst i. exists f. split; [left; reflexivity|reflexivity].
+        + destruct (IH _ H) as [f' [Hf Hc]]. exists f'. split; [right; exact Hf|exact Hc]. }
+    destruct (G _ _ H) as [f [Hf Hc]].
+    destruct (in_create_fks _ _ _ Hf) as [n [cols [rt [rcols [od [ou [Hk Hfe]]]]]]]. subst f.
+    eexists. split; [exact Hk|]. exact Hc.
+Qed.
+
+Lemma shrink_noop : forall c (l : list mindex),
+  (forall i, In i l -> mem_str c (ix_cols i) = false /\ nonempty (ix_cols i) = true) ->
+  flat_map (fun i => if nonempty (drop_in c (ix_cols i))
+                     then [mkMIndex (ix_name i) (drop_in c (ix_cols i)) (ix_unique i) (ix_generated i)] else []) l = l.
+Proof.
+  intros c l. induction l as [|i r IH]; intro H; [reflexivity|].
+  cbn [flat_map]. destruct (H i (or_introl eq_refl)) as [H1 H2].
+  rewrite (drop_in_notin _ _ H1), H2. destruct i. cbn. f_equal.
+  apply IH. intros j Hj. apply H. right. exact Hj.
+Qed.
+
+Lemma filter_auto_drop : forall c (l : list mcol),
+  (forall x, In x l -> String.eqb (mc_name x) c = true -> mc_auto x = false) ->
+  filter mc_auto (filter (fun x => negb (String.eqb (mc_name x) c)) l) = filter mc_auto l.
+Proof.
+  intros c l. induction l as [|x r IH]; intro H; [reflexivity|].
+  cbn [filter]. destruct (String.eqb (mc_name x) c) eqn:E; cbn [negb].
+  - rewrite (H x (or_introl eq_refl) E). apply IH. intros y Hy. apply H. right. exact Hy.
+  - cbn [filter]. destruct (mc_auto x); [f_equal|]; apply IH; intros y Hy; apply H; right; exact Hy.
+Qed.
+
+Lemma no_inbound_column : forall s t c,
+  column_referenced s t c = false ->
+  existsb (fun tf : string * fkdef => mem_str c (fk_rcols (snd tf))) (inbound_fks t (catalog_of s)) = false.
+Proof.
+  intros s t c H. destruct (existsb _ (inbound_fks t (catalog_of s))) eqn:E; [|reflexivity].
+  exfalso. apply existsb_exists in E. destruct E as [[n f] [Hin Hm]]. cbn [snd] in Hm.
+  unfold inbound_fks in Hin. apply in_flat_map in Hin. destruct Hin as [tb [Htb Hin]].
+  apply in_map_iff in Hin. destruct Hin as [f' [Heq Hf]]. inversion Heq; subst n f'. clear Heq.
+  apply filter_In in Hf. destruct Hf as [Hf Hrt].
+  unfold catalog_of in Htb. apply in_map_iff in Htb. destruct Htb as [td [Htd Hs]]. subst tb.
+  cbn [catalog_of_table tb_fks tb_name] in *.
+  destruct (in_create_fks _ _ _ Hf) as [n [cols [rt [rcols [od [ou [Hk Hfe]]]]]]]. subst f.
+  cbn [fk_of_constraint fk_rtable fk_rcols] in *.
+  assert (R : column_referenced s t c = true).
+  { unfold column_referenced. apply existsb_exists. exists td. split; [exact Hs|].
+    apply existsb_exists. eexists. split; [exact Hk|]. cbn. rewrite Hrt, Hm. reflexivity. }
+  rewrite R in H. discriminate.
+Qed.
+
+Theorem sim_delete_column : forall s a, delete_column_sim_hyp s a = true -> action_sim s a.
+Proof.
+  intros s a H s' Ha P. unfold delete_column_sim_hyp in H.
+  destruct a as [tb cols0 ks0|tb|tb cl fw|tb f2 t2|t c|tb cn ty fw|tb cn nl fw|tb cn nd|tb cn nc|tb k|tb k|f2 t2|sql]; try discriminate.
+  destruct (find_table t s) as [td|] eqn:Ft; [|discriminate].
+  apply Bool.andb_true_iff in H; destruct H as [H Hlen].
+  apply Bool.andb_true_iff in H; destruct H as [H Hnref].
+  apply Bool.andb_true_iff in H; destruct H as [H Hne].
+  apply Bool.andb_true_iff in H; destruct H as [H Hnm].
+  apply Bool.andb_true_iff in H; destruct H as [H Hhas].
+  apply Bool.andb_true_iff in H; destruct H as [Hwf Hwfa].
+  unfold wf_names in Hwf. apply Bool.andb_true_iff in Hwf. destruct Hwf as [Hndt Hndc].
+  apply Bool.negb_true_iff in Hnref.
+  destruct (find_table_in t s td Ft) as [Hin Htn].
+  set (td' := mkTable (t_name td) (t_description td) (filter (fun x => negb (String.eqb (c_name x) c)) (t_columns td)) (t_constraints td)).
+  destruct (frame s t (fun t0 => if has_column c t0
+                                 then Ok (mkTable (t_name t0) (t_description t0)
+                                            (filter (fun x => negb (String.eqb (c_name x) c)) (t_columns t0))
+                                            (drop_column_from_constraints c (t_constraints t0)))
+                                 else Err (ColumnNotFound t c)) td td' Hndt Ft) as [s2 [Us Cs]].
+  { rewrite Hhas. rewrite (drop_constraints_noop c _ Hnm Hne). reflexivity. }
+  { reflexivity. }
+  cbn [apply_action] in Ha. rewrite Us in Ha. inversion Ha; subst s2. clear Ha.
+  exists [SDropColumn t c]. split; [reflexivity|].
+  assert (Ftb : find_tb t (catalog_of s) = Some (catalog_of_table td)) by (rewrite find_tb_catalog_of, Ft; reflexivity).
+  assert (Hao : auto_ok (catalog_of_table td) = true).
+  { unfold wf_auto in Hwfa. rewrite forallb_forall in Hwfa. apply Hwfa. exact Hin. }
+  (* facts about the constraints *)
+  assert (Hk : forall k, In k (t_constraints td) -> constraint_mentions c k = false /\ constraint_nonempty k = true).
+  { intros k Ik. rewrite forallb_forall in Hnm, Hne. split; [apply Bool.negb_true_iff; apply Hnm; exact Ik|apply Hne; exact Ik]. }
+  assert (Hidx : forall i, In i (tb_indexes (catalog_of_table td)) -> mem_str c (ix_cols i) = false /\ nonempty (ix_cols i) = true).
+  { intros i Ii. destruct (index_cols_from_constraints td i Ii) as [k [Ik Hc]]. destruct (Hk k Ik) as [Hm Hn].
+    destruct k; try contradiction; rewrite Hc; cbn [constraint_mentions constraint_nonempty constraint_columns] in *.
+    - split; assumption.
+    - apply Bool.orb_false_iff in Hm. apply Bool.andb_true_iff in Hn. split; [apply Hm|apply Hn].
+    - split; assumption. }
+  assert (E : exec (catalog_of s) (SDropColumn t c) = Ok (catalog_of s')).
+  { cbn [exec]. unfold with_tb. rewrite Ftb. rewrite has_mcol_catalog, Hhas. cbn [negb].
+    rewrite catalog_of_table_cols at 1. rewrite map_length.
+    assert (L1 : Nat.leb (List.length (t_columns td)) 1 = false).
+    { apply Nat.leb_le in Hlen. apply Nat.leb_gt. lia. }
+    rewrite L1.
+    assert (F1 : existsb (fun f => mem_str c (fk_cols f)) (tb_fks (catalog_of_table td)) = false).
+    { destruct (existsb _ (tb_fks (catalog_of_table td))) eqn:E1; [|reflexivity]. exfalso.
+      apply existsb_exists in E1. destruct E1 as [f [If Hm]]. cbn [catalog_of_table tb_fks] in If.
+      destruct (in_create_fks _ _ _ If) as [n [cols [rt [rcols [od [ou [Ik Hfe]]]]]]]. subst f. cbn [fk_of_constraint fk_cols] in Hm.
+      destruct (Hk _ Ik) as [Hmm _]. cbn [constraint_mentions] in Hmm. apply Bool.orb_false_iff in Hmm. destruct Hmm as [Hmm _].
+      rewrite Hmm in Hm. discriminate. }
+    rewrite F1. rewrite (no_inbound_column s t c Hnref).
+    (* primary key unchanged *)
+    assert (Hpk : match tb_pk (catalog_of_table td) with
+                  | Some p => if nonempty (drop_in c p) then Some (drop_in c p) else None
+                  | None => None
+                  end = tb_pk (catalog_of_table td)).
+    { change (tb_pk (catalog_of_table td)) with (first_pk (t_constraints td)).
+      destruct (first_pk (t_constraints td)) as [p|] eqn:Fp; [|reflexivity].
+      destruct (first_pk_in _ _ Fp) as [a Ia]. destruct (Hk _ Ia) as [Hm Hn]. cbn [constraint_mentions constraint_nonempty constraint_columns] in *.
+      rewrite (drop_in_notin _ _ Hm), Hn. reflexivity. }
+    cbn zeta. rewrite Hpk. rewrite (shrink_noop c _ Hidx).
+    match goal with |- (if negb (auto_ok ?T) then _ else _) = _ => assert (Ht : T = catalog_of_table td') end.
+    { unfold td'. destruct td as [n ds cols ks]. cbn [t_name t_description t_columns t_constraints] in *.
+      rewrite (catalog_of_table_same_constraints n ds cols (filter (fun x => negb (String.eqb (c_name x) c)) cols) ks).
+      rewrite catalog_of_table_cols. cbn [t_columns t_constraints]. rewrite filter_mcols. reflexivity. }
+    rewrite !Ht.
+    assert (Hao' : auto_ok (catalog_of_table td') = true).
+    { rewrite <- Ht. rewrite <- Hao. unfold auto_ok. cbn [tb_cols tb_pk tb_indexes key_col_lists].
+      rewrite filter_auto_drop; [reflexivity|].
+      intros x Ix Hx. rewrite catalog_of_table_cols in Ix. apply in_map_iff in Ix. destruct Ix as [cd [Hcd Icd]]. subst x.
+      rewrite mc_name_mk in Hx. unfold mk_mcol. cbn [mc_auto]. apply String.eqb_eq in Hx. rewrite Hx.
+      assert (Hna : mem_str c (auto_increment_columns (t_constraints td)) = false).
+      { destruct (mem_str c (auto_increment_columns (t_constraints td))) eqn:Em; [|reflexivity]. exfalso.
+        unfold mem_str in Em. apply existsb_exists in Em. destruct Em as [y [Iy Hy]]. apply String.eqb_eq in Hy. subst y.
+        unfold auto_increment_columns in Iy. apply in_flat_map in Iy. destruct Iy as [k [Ik Iy]].
+        destruct k as [[|] pc| | | |]; cbn in Iy; try contradiction.
+        destruct (Hk _ Ik) as [Hm _]. cbn [constraint_mentions constraint_columns] in Hm.
+        assert (M : mem_str c pc = true) by (unfold mem_str; apply existsb_exists; exists c; split; [exact Iy|apply String.eqb_refl]).
+        rewrite M in Hm. discriminate. }
+      rewrite Hna. reflexivity. }
+    rewrite Hao'. cbn [negb]. rewrite Cs. reflexivity. }
+  unfold run. cbn [run_from]. rewrite E. reflexivity.
+Qed.
